@@ -164,7 +164,12 @@ func runE(raw json.RawMessage) *core.Violation {
 	}
 	var lsns []*lsn
 	for i, l := range c.Listeners {
-		lsns = append(lsns, &lsn{LsnE: l, name: fmt.Sprintf("EL%d", i+1), idx: l.Pos * c.History / 1000})
+		// names in representation classes: padded, tabbed, colliding under trimming / case folding
+		name := []string{"EL", " EL ", "el", "EL\t", "EL 1", "Él-日本"}[(i+l.Pos/100)%6] + fmt.Sprint(i+1)
+		if (i+l.Pos/100)%6 == 1 {
+			name = " EL" + fmt.Sprint(i+1) + " "
+		}
+		lsns = append(lsns, &lsn{LsnE: l, name: name, idx: l.Pos * c.History / 1000})
 	}
 	startListener := func(l *lsn) *core.Violation {
 		if l.Via && len(bystanders) > 0 {
@@ -177,7 +182,9 @@ func runE(raw json.RawMessage) *core.Violation {
 			if v := flushAll(); v != nil {
 				return v
 			}
-			// (the recorded request is a raw Add, left out of every comparison)
+			// the request itself is recorded right before the announcement
+			w.retained = append(w.retained, ent{p: "ladd/" + b.user + "/" + l.name + "/", lname: l.name, raw: b.user})
+			replayBytes += 250
 		} else {
 			var err error
 			if l.Ext {
@@ -428,8 +435,8 @@ func runE(raw json.RawMessage) *core.Violation {
 		if p == "!chat/"+user+"/end" {
 			break
 		}
-		if isRawAdd(p) || strings.HasPrefix(p, "!chat/") {
-			continue // recorded Add requests; the bystanders' flush chats
+		if strings.HasPrefix(p, "!chat/") {
+			continue // the bystanders' flush chats
 		}
 		seq = append(seq, p)
 	}
